@@ -94,6 +94,9 @@ def events(rng, n, hot=True, mode="mixed", unsub_p=0.0, term_p=0.15):
 def parse_suffix(body):
     """`o=N1;N(l 1 2);C live=2 tm=3 t=10` -> (['N1','N(l 1 2)','C'], {'live':2,'tm':3,'t':10})"""
     import re
+    i = body.find(" L=")
+    if i >= 0:
+        body = body[:i]
     m = re.search(r" (?=[a-z]+=)", body)
     head, tail = (body[:m.start()], body[m.end():]) if m else (body, "")
     out = head[2:].split(";") if head.startswith("o=") and len(head) > 2 else []
